@@ -167,11 +167,13 @@ let str_outcome (f : 'a -> string) (o : 'a outcome) = match o with
   | Blocked -> "BLOCKED"
 
 type cop = { run_s : reply list -> msg list * string; run_b : vsign list -> vsign list * string;
-             run_w : wire -> (wire * string) option }
+             run_w : wire -> (wire * string) option;
+             run_ws : wire -> wsched list -> (wire * string) option }
 let mk (p : 'a prog) (f : 'a -> string) : cop =
   { run_s = (fun sc -> let (tr, o) = run_script p sc in (tr, str_outcome f o));
     run_b = (fun b -> let (b', o) = run_bus p b in (b', str_outcome f o));
-    run_w = (fun w -> match run_wire p w with None -> None | Some (w', o) -> Some (w', str_outcome f o)) }
+    run_w = (fun w -> match run_wire p w with None -> None | Some (w', o) -> Some (w', str_outcome f o));
+    run_ws = (fun w ss -> match run_wire_s p w ss with None -> None | Some (w', o) -> Some (w', str_outcome f o)) }
 let unit_s () = ""
 let style_s st = "." ^ str_style st
 
@@ -301,7 +303,16 @@ let handle_io (toks : string list) : string =
         (hex_of_bytes !p.pt_out.w_out) (hex_of_bytes !p.pt_in.r_content)
         (String.concat "/" (List.map obs !b))
     end
-  | "WB" :: k :: rest ->
+  | ("WB" | "WBS") :: k :: rest ->
+    let fragmented = (List.hd toks = "WBS") in
+    (* WBS: every stream use fragments and gets interrupted (never fails).  The harness cycles through fixed
+       patterns; the model runs run_wire_s with clean schedules of the same kind for the first bus calls
+       (proofs/WireSchedP.v: any clean schedules give the run of the plain wire). *)
+    let rpat = List.map rd_ev_of_str ["D0"; "I"; "D2"; "D0"; "D5"; "I"; "I"; "D1"] in
+    let wpat = List.map wr_ev_of_str ["A0"; "I"; "A3"; "A1"; "I"; "A9"] in
+    let rec rep n l = if n = 0 then [] else l @ rep (n - 1) l in
+    let one = { ws_cw = rep 4 wpat; ws_br = rep 6 rpat; ws_bw = rep 3 wpat; ws_cr = rep 5 rpat } in
+    let scheds = if fragmented then List.init 64 (fun _ -> one) else [] in
     let (signs, rest) = parse_signs (int_of_string k) rest in
     let (prior, ops) = split_at "|" rest in
     let b = ref signs in
@@ -314,7 +325,7 @@ let handle_io (toks : string list) : string =
       let w = ref { wr_bus = !b; wr_inbox = [] } in
       let out = Buffer.create 256 in
       List.iter (fun o ->
-          let oc = (cop_of_str o).run_w !w in
+          let oc = if fragmented then (cop_of_str o).run_ws !w scheds else (cop_of_str o).run_w !w in
           (match oc with
            | None -> Buffer.add_string out "FUEL"
            | Some (w', s) -> w := w'; Buffer.add_string out s);
